@@ -49,7 +49,15 @@ func NewFReader(fn string) FReader {
 	return FReader{r: r, b: b}
 }
 
-func (f FReader) read() (string, error) { return f.b.ReadString('\n') }
+func (f FReader) read() (string, error) {
+	line, err := f.b.ReadString('\n')
+	if err != nil && line != "" {
+		// the last line of a file that does not end in a newline: hand it over, the
+		// next read reports the end of file
+		return line, nil
+	}
+	return line, err
+}
 
 func (f FReader) Close() error { return f.r.Close() }
 
